@@ -23,3 +23,4 @@ def run(ck):
     traps.r5_trap_shortcut(ck, P)             # C03-R5: the direct trapezoid route is taken only where clips and masks cannot matter
     status.r19_14_direct_fill_passes_the_image_bounds(ck, P, 'C03-R15')
     geometry.r_coordinate_split_floors(ck, P)
+    traps.r21_raw_rasterisers_consult_the_clip(ck, P)
